@@ -347,7 +347,37 @@ def proof_stage(ctx: Ctx, module: str, extra_targets=("driver",)):
             good += 1
     ctx.discharged = good
     ctx.coverage["theorems"] = names
-    return good == len(names) and not hits
+    ok_lc = True
+    if ctx.tier == "thorough":
+        ok_lc = recheck_oleans(ctx, module)
+    return good == len(names) and not hits and ok_lc
+
+
+def project_imports(module):
+    """transitive closure of `import Alpen.…` lines starting from `module` (project modules only)"""
+    seen, todo = [], [module]
+    while todo:
+        m = todo.pop()
+        if m in seen:
+            continue
+        seen.append(m)
+        p = os.path.join(LEAN, m.replace(".", "/") + ".lean")
+        if not os.path.exists(p):
+            continue
+        for mm in re.finditer(r"^import\s+(Alpen[.\w]*)", strip_comments(open(p).read()), re.M):
+            todo.append(mm.group(1))
+    return seen
+
+
+def recheck_oleans(ctx, module):
+    """thorough tier: replay the compiled declarations of the property's module and every project module it imports
+    through leanchecker (independent re-check of the .olean files by the kernel)"""
+    mods = project_imports(module)
+    rc, out = run(["lake", "env", "leanchecker", *mods], cwd=LEAN, timeout=3000)
+    ctx.coverage["leanchecker"] = {"modules": mods, "ok": rc == 0}
+    if rc != 0:
+        ctx.proof_broken.append("leanchecker rejected compiled modules: " + out[-600:])
+    return rc == 0
 
 
 def infra_fail(ctx, msg):
